@@ -27,6 +27,7 @@ MAX_USER_TRYSUBMITS = 10
 MAX_OPS = 1500
 # modes in which the fake scheduler may list a live batch under a state word outside JADE's table
 ODD_STATE_MODES = ("plain", "busy", "cancel", "resubmit")
+SLOWEXT_MODES = ("plain", "busy", "batchfaults")
 
 
 # ----------------------------------------------------------------------------------------------
@@ -201,7 +202,8 @@ class Run:
         self.quiescent_checks = []
         self.fault_done = False
         self.fault_kind = None
-        self.style = self.rng.choice(["uniform", "nodes", "submitters", "bursty"])
+        # slowext: scheduler commands take long - everybody else progresses while a process waits for squeue/sbatch/scancel
+        self.style = self.rng.choice(["uniform", "nodes", "submitters", "bursty"] + (["slowext"] if self.mode in SLOWEXT_MODES else []))
         self.ref = reference(self.sc)
         self.workers = {}
         self.cancel_info = None
@@ -228,6 +230,8 @@ class Run:
                     w = 4.0
                 if self.style == "bursty" and self.last == ("step", p.pid):
                     w = 6.0
+                if self.style == "slowext" and p.at[0] == "EXT" and str(p.at[1]).split(" ")[0] in ("squeue", "sbatch", "scancel"):
+                    w = 0.1
                 m.append((w, ["step", p.pid]))
         for h, b in vc.slurm.items():
             if b["state"] == "pending":
@@ -387,6 +391,7 @@ class Run:
         self.snaps.append(st)
 
     resubmitted_since_prev = False
+    user_busy = 0
 
     # ------------------------------------------------------------------ schedule
     def choose(self, menu):
@@ -417,6 +422,11 @@ class Run:
             return None
         if mode == "busy" and rng.random() < .04:
             return ["spawn", rng.choice(["trysubmit", "trysubmit", "showstatus"])]
+        if mode == "busy" and rng.random() < .08 and self.user_busy < 6 and \
+                [b["state"] for b in vc.slurm.values() if b["state"] in ("pending", "running")] == ["running"]:
+            # the user looks again when the run is nearly over: a round concurrent with the end of the last batch
+            self.user_busy += 1
+            return ["spawn", "trysubmit"]
         if mode == "busy" and rng.random() < .02:
             return ["noise"]
         if mode == "cancel" and self.cancel_info is None and rng.random() < .05 and len(vc.trace) > 3:
@@ -424,6 +434,11 @@ class Run:
             return ["spawn", "cancel", rng.random() < .6]
         if mode == "cancel" and self.cancel_info is not None and rng.random() < .03:
             return ["spawn", rng.choice(["trysubmit", "showstatus"])]
+        if mode == "batchfaults" and vc.procs and vc.procs[1].state != "ready" and self.user_busy < 4 and rng.random() < \
+                (.08 if [b["state"] for b in vc.slurm.values() if b["state"] in ("pending", "running")] == ["running"] else .01):
+            # the user may look at any time (try-submit-jobs is what show-status offers), also while batches die
+            self.user_busy += 1
+            return ["spawn", "trysubmit"]
         if mode == "batchfaults":
             r = rng.random()
             if r < .05:
@@ -543,7 +558,7 @@ class Run:
                 return True
             # give the user a chance anyway (their process will block too) - stop instead
             return False
-        if self.user_trysubmits >= MAX_USER_TRYSUBMITS:
+        if self.user_trysubmits >= MAX_USER_TRYSUBMITS * len(self.epoch_info):      # per (resubmission) epoch
             return False
         self.user_trysubmits += 1
         before = (sum(1 for e in vc.trace if e[1] == "sbatch"), st["complete"])
@@ -658,6 +673,9 @@ class Run:
                     self.bad("C03", "progress.incomplete", "the fault-free run did not complete")
             elif results is not None:
                 self.check_final_results(results, "C03")
+                if results["missing_jobs"] and mc:
+                    self.bad("C05", "complete.jobs_without_result", f"the completion flag was set in a fault-free run while jobs "
+                             f"{sorted(jid(m) for m in results['missing_jobs'])} have no result")
         if plain and not self.dry() and not sc.get("local"):
             for q in self.quiescent_checks:
                 after_sb = sum(1 for e in tr if e[1] == "sbatch")
@@ -1238,12 +1256,55 @@ class Run:
             "fault": self.fault_kind, "deadlocked": self.deadlocked, "style": self.style,
             "errors": [e[5] for e in vc.trace if e[1] == "procexit" and e[5]][:5],
             "unknown_ext": [e for e in vc.trace if e[1] == "unknown_ext"][:3],
+            "lockset": lockset_audit(self),
         }
         hist = translate(self)
         return {"model": None, "obs": obs, "hist": hist}
 
 
 SUBKINDS = ("submit", "trysubmit", "cancel")
+
+CLUSTER_FILES = ("cluster_config.json", "job_status.json", "config_version.txt", "job_status_version.txt")
+# sections in which the unchanged code mutates these files without the lock, by design:
+#   create  - Cluster.create of submit-jobs writes the two version files before anybody else knows the directory
+#   prepare - Cluster.prepare_for_resubmission ("Locking is not required": complete submission, role held)
+#   reset   - ResultsAggregator.clear_results_for_resubmission rewrites processed_results.csv (same situation)
+UNLOCKED_BY_DESIGN = {"create": CLUSTER_FILES, "prepare": CLUSTER_FILES, "reset": ("processed_results.csv",)}
+
+
+def lockset_audit(run):
+    """DESIGN 5.4: every mutation of a result file happens under that file's own lock, every mutation of the cluster
+    files under the cluster lock (the system model treats these sections as atomic).  Returns the breaches."""
+    if run.sc.get("local"):
+        return []            # one process, no protocol (the cluster files are deleted at the end, unlocked)
+    out = []
+    inside = {}              # pid -> stack of open sections
+    for e in run.vc.trace:
+        if e[1] == "sect":
+            st = inside.setdefault(e[2], [])
+            if e[4] == "begin":
+                st.append(e[3])
+            elif st:
+                st.pop()
+            continue
+        if e[1] != "mut":
+            continue
+        _, _, pid, base, how, holding = e
+        if base == "processed_results.csv" or (base.startswith("results_batch_") and base.endswith(".csv")):
+            need = base + ".lock"
+        elif base in CLUSTER_FILES:
+            need = "cluster_config.json.lock"
+        else:
+            continue
+        if need in holding:
+            continue
+        if any(base in UNLOCKED_BY_DESIGN.get(t, ()) for t in inside.get(pid, [])):
+            continue
+        kind = run.vc.procs[pid].kind
+        msg = f"lockset: {kind} process {pid} mutated {base} ({how}) without holding {need} (held: {list(holding)})"
+        if msg not in out:
+            out.append(msg)
+    return out[:5]
 
 
 def translate(run):
@@ -1444,6 +1505,9 @@ class SystemSuite(Suite):
         n = {"quick": 120, "thorough": 2500}[tier]
         if prop in ("C11", "C12"):
             n = {"quick": 200, "thorough": 4000}[tier]
+        extra = modes.count("resubmit")
+        if 0 < extra < len(modes):
+            n = n * len(modes) // (len(modes) - extra)      # the other modes keep their number of cases
         out = []
         for i in range(n):
             mode = modes[i % len(modes)]
@@ -1451,6 +1515,8 @@ class SystemSuite(Suite):
             if prop in ("C03", "C04", "C02") and mode in ("plain", "busy") and i % 3 == 2:
                 from suites import sysgen
                 sc = sysgen.cancel_chain(rng)        # structured family: failing root + flagged chains across batches
+            if mode == "resubmit" and prop == "C07":
+                sc["resub"]["regroupProb"] = 1.0             # C07: every resubmission passes an edited groups file (-s)
             out.append({"op": "system.trace", "sc": sc, "mode": mode, "seed": rng.randrange(1 << 30),
                         "breakStale": (i % 2 == 1) if mode == "faults" else False})
         return out
@@ -1483,13 +1549,15 @@ class SystemSuite(Suite):
     def diff(self, model, result):
         """differences between the model's replay and the observed history (empty = agreement)"""
         h = result.get("hist")
+        # lockset breaches: the atomic sections of the model no longer hold in the code (a broken tie, not an oracle hit)
+        lock = list((result.get("obs") or {}).get("lockset") or [])
         if not h or h == "skip" or not model.get("outs") and not h["events"]:
-            return []
+            return lock
         if len(h["events"]) == 0:
-            return []
+            return lock
         if "driver_error" in model:
             return [f"driver: {model['driver_error']}"]
-        d = []
+        d = lock
         if model["rejected"] is not None:
             i = model["rejected"]
             d.append(f"event {i} not accepted by the model: {h['events'][i]} (process at {model.get('procAt')}); previous: {h['events'][max(0, i - 4):i]}")
